@@ -1,11 +1,16 @@
-(* C31 — The manifest compiler never crashes (partial). Property theorems only.
+(* C31 — The manifest compiler never crashes. Property theorems only.
    Model/C31_Lexer.v: the whole lexer (whitespace/comments, numbers with type suffix and parse_int,
    strings, identifiers, punctuation, the tokenize loop with fuel) over lists of code points. A Rust
    &str is a list of Unicode scalar values; the theorems hold for every list of numbers, so in
    particular for every valid UTF-8 text with any mix of LF / CRLF / CR and non-ASCII characters. *)
+From Coq Require Import String.
 From Coq Require Import List NArith ZArith Bool.
 Import ListNotations.
 Require Import RV.Model.C30_Text RV.Model.C31_Lexer RV.Proof.C31_Text RV.Proof.C31_Lexer.
+Require Import RV.Model.C31_Snippet RV.Proof.C31_Snippet RV.Proof.C31_Spans RV.Proof.C31_Diag.
+Require Import RV.Model.C30_Value RV.Gen.C31_instructions RV.Model.C31_Parser RV.Proof.C31_Parser.
+Require Import RV.Model.C31_IdValidator RV.Proof.C31_IdValidator.
+Require Import RV.Gen.C31_generator_panic_sites RV.Proof.C31_Sites.
 Open Scope N_scope.
 
 (* the lexer is total: on every input it returns a token list or an error — the model's panic states
@@ -19,9 +24,83 @@ Proof. exact lex_string_no_panic. Qed.
 (* determinism ("the same answer every time") is immediate for the model: tokenize is a function *)
 
 (* kept from the first round: bounded exhaustive version, independent of the structural proof *)
-Theorem C31_lex_string_total_sigma7 : forall l, over_sigma l -> (length l <= 7)%nat ->
+Theorem C31_lex_string_total_sigma7 : forall l, over_sigma l -> (List.length l <= 7)%nat ->
   lex_string l 1 0 [] <> SPanic.
 Proof. exact lex_string_no_panic_sigma7. Qed.
+
+(* ---- spans and diagnostics ------------------------------------------------------------------------------ *)
+(* every span the lexer produces is well formed: token spans are non-empty and inside the text, the error
+   span has start <= end <= number of characters (character indices: on char boundaries by construction) *)
+Theorem C31_lex_spans_wellformed : forall text,
+  match tokenize text with
+  | LOk ts => Forall (span_ok (ln text)) ts
+  | LErr _ a b => a <= b /\ b <= ln text
+  | _ => True
+  end.
+Proof. exact lex_spans_wellformed. Qed.
+(* create_snippet as FIXED in /repo 22cafbbc61 (model: usize underflow and the renderer's range precondition
+   are an explicit SnPanic): no panic for every text and every span with start <= end <= length whose line
+   indices are those Position::advance maintains; bytes = s.len() >= number of chars *)
+Theorem C31_snippet_total : forall text bytes s e,
+  (s <= e)%nat -> (e <= List.length text)%nat -> lenN text <= bytes ->
+  snippet true text bytes (N.of_nat s) (N.of_nat (line_of text s)) (N.of_nat e) (N.of_nat (line_of text e)) <> SnPanic.
+Proof. exact snippet_total_fixed. Qed.
+(* the pre-fix function (str::lines) panics on the 6-character text: double quote, abc, CR, LF (unterminated string, error
+   span at the end of input on line index 1); the fixed one does not *)
+Theorem C31_snippet_total_unfixed_refuted :
+  let text := [34; 97; 98; 99; 13; 10] in
+  line_of text 6 = 1%nat /\ snippet false text 6 6 1 6 1 = SnPanic /\ snippet true text 6 6 1 6 1 <> SnPanic.
+Proof. exact snippet_unfixed_refuted. Qed.
+(* lexer + diagnostics composed: rendering any lexer error of any text does not panic; same for any span
+   from the start of a token to the end of a token (the shape of parser and generator error spans) *)
+Theorem C31_lex_error_snippet_total : forall text bytes k a b, tokenize text = LErr k a b -> lenN text <= bytes ->
+  snippet true text bytes a (line_idx text a) b (line_idx text b) <> SnPanic.
+Proof. exact lex_error_snippet_total. Qed.
+Theorem C31_token_span_snippet_total : forall text bytes ts t1 a1 b1 t2 a2 b2, tokenize text = LOk ts ->
+  In (t1, a1, b1) ts -> In (t2, a2, b2) ts -> a1 <= b2 -> lenN text <= bytes ->
+  snippet true text bytes a1 (line_idx text a1) b2 (line_idx text b2) <> SnPanic.
+Proof. exact token_span_snippet_total. Qed.
+
+(* ---- parser --------------------------------------------------------------------------------------------- *)
+(* the parser model (whole manifests: instruction keyword table generated from the real parser, fixed values,
+   variadic argument lists, the value layer with the depth limit) returns an AST or an error for every token
+   list: the only abnormal outcome of the model, fuel exhaustion, never happens with fuel 2 * tokens + 3 *)
+Theorem C31_parse_total : forall ts, parse_manifest ts <> POutOfFuel.
+Proof. exact parse_total. Qed.
+Theorem C31_parse_value_total : forall ts, parse_tokens ts <> POutOfFuel.
+Proof. exact parse_value_total. Qed.
+(* the index sites generics[0], generics[1] *)
+Theorem C31_generics_length : forall f n ts ks rest, parse_generics f n ts = POk ks rest -> List.length ks = n.
+Proof. exact generics_length. Qed.
+
+(* ---- generator: id bookkeeping and the table of panic sites ------------------------------------------------ *)
+(* BasicManifestValidator never reaches its two panic!("Illegal state") sites nor the underflow of
+   *cnt -= 1, for every sequence of calls *)
+Theorem C31_id_validator_no_panic : forall ops, run ops init <> VPanic.
+Proof. exact id_validator_no_panic. Qed.
+(* every syntactic panic site of the pipeline sources (generated by gen_c31_sites from /repo) is in the
+   annotated list of Proof/C31_Sites.v, in order; a new site changes the generated table and breaks this *)
+Theorem C31_panic_sites_accounted : map site_of accounted_sites = panic_sites.
+Proof. exact sites_accounted. Qed.
+
+Example C31_parse_nonvacuous :
+  (* DROP_ALL_PROOFS;  and  CALL_METHOD with two arguments; one missing semicolon; unknown keyword *)
+  parse_manifest [TIdent (s2l "DROP_ALL_PROOFS"); TSemi] = POk [(s2l "DROP_ALL_PROOFS", [])] [] /\
+  (exists r, parse_manifest [TIdent (s2l "CALL_METHOD"); TString [97]; TString [98]; TInt false 8 1; TBool true; TSemi] = POk r []) /\
+  parse_manifest [TIdent (s2l "DROP_ALL_PROOFS")] = PErr PEof /\
+  parse_manifest [TIdent (s2l "FOO"); TSemi] = PErr PUnexpected /\
+  parse_manifest [] = PErr PEof.
+Proof. repeat split; try (vm_compute; reflexivity). eexists. vm_compute. reflexivity. Qed.
+Example C31_snippet_nonvacuous :
+  (* error on line 7 of a 9-line text: window starts at line 2 *)
+  let text := [97;10; 98;10; 99;10; 100;10; 101;10; 102;10; 33;10; 104;10; 105;10] in
+  snippet true text 18 12 6 13 6 = SnOk 2 [[98];[99];[100];[101];[102];[33];[104];[105]] 10 11.
+Proof. vm_compute. reflexivity. Qed.
+Example C31_id_validator_nonvacuous :
+  (* bucket, proof of it, clone, drop bucket refused while locked, drop all, drop bucket *)
+  (exists s, run [NewBucket; NewProof (Some 0); CloneProof 0; DropAllNamed; DropBucket 0] init = VOk s) /\
+  run [NewBucket; NewProof (Some 0); DropBucket 0] init = VErr.
+Proof. split; [eexists|]; vm_compute; reflexivity. Qed.
 
 Example C31_nonvacuous :
   tokenize [35; 99; 13; 10; 45; 49; 50; 56; 105; 56; 32; 34; 233; 92; 110; 34; 61; 62; 116; 114; 117; 101; 59]
@@ -35,3 +114,13 @@ Proof. repeat split; vm_compute; reflexivity. Qed.
 Print Assumptions C31_lex_total.
 Print Assumptions C31_lex_string_total.
 Print Assumptions C31_lex_string_total_sigma7.
+Print Assumptions C31_lex_spans_wellformed.
+Print Assumptions C31_snippet_total.
+Print Assumptions C31_snippet_total_unfixed_refuted.
+Print Assumptions C31_lex_error_snippet_total.
+Print Assumptions C31_token_span_snippet_total.
+Print Assumptions C31_parse_total.
+Print Assumptions C31_parse_value_total.
+Print Assumptions C31_generics_length.
+Print Assumptions C31_id_validator_no_panic.
+Print Assumptions C31_panic_sites_accounted.
